@@ -29,6 +29,11 @@ CLAIMED = {
    text="For 4 asset classes with symbolic presence and symbolic i128 amounts, the real add/sub/neg, every constructor, contains_total/contains_some/is_empty/is_empty_or_negative/is_only_naked, == and the AssetExpr round trip are executed from rustc's MIR and shown equal to their pointwise specification on every path (z3 unsat per obligation); a panic path is accepted only where an i128 operation genuinely overflows. Bounded model checking: class universe of 4, one call per harness.",
    note="mirsym interpreter and its std models (HashMap, iterators, Option) are the trusted base; keys are concrete distinct byte strings.",
    design="§3 C15"),
+ "C19": dict(
+   technique="symbolic execution of the MIR of the parse-error conversion (mirsym -> z3) against pest's location contract",
+   text="For every input length 0..12 and every location pest can report (Pos / Span with symbolic absolute offsets within the input), the parse error built by the real code carries a source text and a span with start <= end <= len(text), the text being the very input the offsets refer to; the display-span conversion does not underflow. Bounded model checking over the conversion functions; analysis-error spans and UTF-8 boundaries are outside.",
+   note="pest's Error object is a contract model (field order read from the pinned pest source); mirsym interpreter + std models trusted.",
+   design="§3 C19"),
 }
 
 NA = {
